@@ -25,6 +25,7 @@ def run(prog, report, tier):
     meshrules.check_exact_mesh(prog, report)
     # every bisection restores 1-irregularity through the closure
     meshrules.check_closure(prog, report)
+    meshrules.check_sweep_unbounded(prog, report)
     stale.check_drivers(prog, report, only={'Mesh.refine_grading'})
     meshrules.check_window(prog, report)
     meshrules.check_entry(prog, report)
